@@ -33,6 +33,7 @@ CONSTANTS
   UpdateSpecs <- UpdateSpecsNone
 VIEW View
 INVARIANTS
+  Inv_C07_OwnerTally
   Inv_C13_QueueSound
   Inv_C07_DepositEscrow
   Inv_C13_QueueComplete
@@ -43,8 +44,7 @@ PROPERTIES
   Act_C07_Charge_ModF4
   Act_C07_Answer
   Act_C07_Expire
-  Act_C07_Withdraw_ModF29
-  Act_C07_OwnerTally_ModF29
+  Act_C07_Withdraw
   Act_C07_Frame
   Act_Rejected_NoEffect
   Act_C08_OneOutcome
